@@ -176,7 +176,8 @@ struct TcpNameserver {
     tcp_last_recv_activity: Instant,
     /* What has been read from the TCP connection, but is not yet a complete reply. */
     tcp_recv_buf: Vec<u8>,
-    qid2reply: std::collections::HashMap<u16, Responder<super::dnspkt::DNSPkt>>,
+    /* id on the wire → (id the caller chose, where to send the reply) */
+    qid2reply: std::collections::HashMap<u16, (u16, Responder<super::dnspkt::DNSPkt>)>,
 }
 
 impl TcpNameserver {
@@ -223,19 +224,35 @@ impl TcpNameserver {
     }
 
     async fn send_tcp_reply(&mut self, qid: u16, reply: Result<super::dnspkt::DNSPkt, Error>) {
-        if let Some(resp) = self.qid2reply.remove(&qid) {
-            resp.send(reply).unwrap();
+        if let Some((orig_qid, resp)) = self.qid2reply.remove(&qid) {
+            resp.send(reply.map(|mut pkt| {
+                pkt.qid = orig_qid;
+                pkt
+            }))
+            .unwrap();
         } else {
             log::error!("Sending reply to unknown request: {:?}", reply);
         }
     }
 
-    async fn send_tcp_query(&mut self, msg: TcpNameserverMessage) -> Result<(), Error> {
-        assert!(
-            self.qid2reply
-                .insert(msg.out_query.qid, msg.out_reply)
-                .is_none()
-        ); // TODO: Collisions!
+    async fn send_tcp_query(&mut self, mut msg: TcpNameserverMessage) -> Result<(), Error> {
+        /* Replies on this connection are matched to their query by id alone.  Ids are chosen at
+         * random by the caller, so with enough queries in flight two of them will have been given
+         * the same one: the newcomer gets another.
+         */
+        if self.qid2reply.len() > usize::from(u16::MAX) / 2 {
+            let _ = msg.out_reply.send(Err(Error::Internal(
+                "Too many queries in flight on TCP connection".into(),
+            )));
+            return Ok(());
+        }
+        let orig_qid = msg.out_query.qid;
+        while self.qid2reply.contains_key(&msg.out_query.qid) {
+            use rand::TryRng as _;
+            msg.out_query.qid = rand::rngs::SysRng.try_next_u32().unwrap() as u16;
+        }
+        self.qid2reply
+            .insert(msg.out_query.qid, (orig_qid, msg.out_reply));
         if let Some(ref mut tcp_sock) = self.tcp {
             use tokio::io::AsyncWriteExt as _;
             let bytes = msg.out_query.serialise();
@@ -309,7 +326,7 @@ impl TcpNameserver {
         self.tcp = None;
         self.tcp_recv_buf.clear();
         log::trace!("Tearing down {} TCP channel: {}", self.addr, err);
-        for (_qid, chan) in self.qid2reply.drain() {
+        for (_qid, (_orig_qid, chan)) in self.qid2reply.drain() {
             chan.send(Err(Error::TcpConnection(format!(
                 "TCP channel closed before reply: {}",
                 err
